@@ -299,6 +299,19 @@ def run(tier: str, only=None) -> int:
         rep.sample({"sub": name, "params": P})
         harness.run_exploration(rep, PID, name + "/sync", CbScn, P, b_sync, max_execs=cap)
         harness.run_exploration(rep, PID, name + "/stmt", CbScn, P, b_stmt, stmt=stmt, max_execs=cap)
+    for i, C in enumerate(cases(tier)):
+        if C.get("cb_close") or C.get("local_close") or C["delay"] or C["k"] or not C["endmarker"]:
+            continue
+        if tier == "quick" and C["end"] not in ("body-end", "error", "kill", "close"):
+            continue
+        for tr, be in (("socket", "thread"), ("via", "thread"), ("popen", "main_thread_only"), ("popen", "gevent")):
+            name = f"cb/{i}:{C['end']}{':dropped' if C.get('drop_handle') else ''}/{tr}:{be}"
+            if only and only not in name:
+                continue
+            if C["end"] == "kill" and tr == "socket":
+                continue  # the socket worker lives in the master's process: killing it is the C04 scenario
+            P = dict(C, transport=tr, backend=be)
+            harness.run_exploration(rep, PID, name, CbScn, P, {"ps": 1, "free": 0}, max_execs=cap)
     for n, delay in ((2, 0), (2, 3.0)):
         name = f"multi/n{n}d{delay}"
         if only and only not in name:
